@@ -126,3 +126,27 @@ Definition matrix_input_ok2 (o : oracles) (ord : hord) (sw : switches) (dt : det
 Definition c01_scope_nested_all (o : oracles) (ord : hord) (sw : switches) (dt : detection) : bool :=
   c01_scope_nested ord (sw_without_matrix sw) dt &&
   (negb (sw_matrix sw) || (no_quant_ident (d_expr dt) && matrix_input_ok2 o ord sw dt)).
+
+
+(* ---- ... and with quantifiers in the trees handed to matrix (Properties/C01_matrix_quant.v):
+        matrix applies shake_1 to quantifier operands; those runs must be safe ---- *)
+Fixpoint match_safe (ord : hord) (neg : bool) (fuel : nat) (e : expr) : bool :=
+  match e with
+  | EGroup _ l => forallb (match_safe ord neg fuel) l
+  | EBexp l _ r => match_safe ord neg fuel l && match_safe ord neg fuel r
+  | EMatch k (EGroup _ l) => forallb (shake1_safe ord (neg_of neg k) fuel) l
+  | EMatch k e' => shake1_safe ord (neg_of neg k) fuel e'
+  | ENegate e' => match_safe ord true fuel e'
+  | ENested _ e' => match_safe ord neg fuel e'
+  | _ => true
+  end.
+Definition matrix_input_ok3 (o : oracles) (ord : hord) (sw : switches) (dt : detection) : bool :=
+  let pm := pre_matrix o ord sw dt in
+  negb (known_d17 o ord sw dt) && negb (known_d16 ord sw dt) &&
+  forallb cmp_reads (all_trees pm) &&
+  match_safe ord false (shake_fuel (fst pm)) (fst pm) &&
+  forallb (fun b : str * expr => match_safe ord (body_neg pm) (shake_fuel (snd b)) (snd b)) (snd pm) &&
+  (sw_coalesce sw || no_match (fst pm)).
+Definition c01_scope_quant_all (o : oracles) (ord : hord) (sw : switches) (dt : detection) : bool :=
+  c01_scope_nested ord (sw_without_matrix sw) dt &&
+  (negb (sw_matrix sw) || (no_quant_ident (d_expr dt) && matrix_input_ok3 o ord sw dt)).
